@@ -121,7 +121,13 @@ def work(w, q, out, lock):
     finally:
         shutil.rmtree(d, ignore_errors=True)
 
-muts = gen()[:LIMIT]
+muts = gen()
+FILTER = os.path.join(HERE, 'pilot', 'suite_passing_mutants.json')
+if os.environ.get('MUT_ALL') is None and os.path.exists(FILTER):
+    # only the mutants a previous campaign found to compile and pass the repository's tests
+    want = {(d['file'], d['old'], d['new']) for d in json.load(open(FILTER))}
+    muts = [m for m in muts if (m[0], m[2].strip(), m[3].strip()) in want]
+muts = muts[:LIMIT]
 print(len(muts), 'mutants', file=sys.stderr)
 q = queue.Queue()
 for x in enumerate(muts):
